@@ -89,7 +89,9 @@ func (p *Parser) parseSourceFileWorker(content []byte) *SourceCode {
 	p.nextToken()
 	// parse expression list
 	p.sourceCode.Expression = p.parseExpression()
-	assertMsg(p.token() == SK_EndOfFile, fmt.Sprintf("End of file not reached, stop at %d(\"%s\")", p.scanner.pos, p.scanner.GetTokenText()))
+	if p.token() != SK_EndOfFile {
+		p.errorAtCurrentToken(M_0_expected, "end of file")
+	}
 	p.sourceCode.EndOfFileToken = p.parseToken()
 	// 记录相关信息
 	p.sourceCode.NodeCount = p.nodeCount
